@@ -100,6 +100,8 @@ pub enum SOp {
     Advance { secs: u64 },
     /// set_block to the same time plus the given seconds, other height / chain id
     SetBlock { secs: u64 },
+    /// update_block advancing time by nanoseconds (sub-second block times)
+    AdvanceNanos { nanos: u64 },
 }
 
 pub fn sop_label(o: &SOp) -> String {
@@ -112,6 +114,7 @@ pub fn sop_label(o: &SOp) -> String {
         SOp::Slash { v, pct } => format!("slash(v{}, {}%)", v + 1, pct),
         SOp::Advance { secs } => format!("advance({}s)", secs),
         SOp::SetBlock { secs } => format!("set_block(+{}s)", secs),
+        SOp::AdvanceNanos { nanos } => format!("advance({}ns)", nanos),
     }
 }
 
@@ -225,7 +228,8 @@ pub struct QEntry {
     d: u8,
     v: u8,
     amount: Rat,
-    payout_at: u64,
+    /// nanoseconds since start
+    payout_at: u128,
     slashes: u32,
 }
 
@@ -244,8 +248,8 @@ pub struct Hidden {
     /// exact shares (upper bound of what the implementation holds)
     shares: BTreeMap<(u8, u8), Rat>,
     queue: Vec<QEntry>,
-    /// seconds since start
-    now: u64,
+    /// nanoseconds since start
+    now: u128,
     withdraw_to: BTreeMap<u8, u8>,
     rewards: BTreeMap<(u8, u8), RewardAcc>,
     /// time of the last change of any stake of the validator (rewards accrue on constant stake)
@@ -260,15 +264,15 @@ impl Hidden {
         self.shares.iter().filter(|((_, vv), _)| *vv == v).all(|(_, s)| s.is_whole())
     }
     /// accrue rewards of every delegation of validator v (or all) for `dt` seconds at current stakes
-    fn accrue(&mut self, dt: u64, nm: &Names) {
-        if dt == 0 {
+    fn accrue(&mut self, dt_ns: u128, nm: &Names) {
+        if dt_ns == 0 {
             return;
         }
         for ((d, v), s) in self.shares.clone() {
             if s.is_zero() {
                 continue;
             }
-            let rate = Rat::new(APR_PCT as u64 * (100 - nm.commissions[v as usize]) as u64 * dt, 100u64 * 100 * YEAR);
+            let rate = Rat::new(BigInt::from(APR_PCT as u64 * (100 - nm.commissions[v as usize]) as u64) * BigInt::from(dt_ns), BigInt::from(100u64 * 100 * YEAR) * BigInt::from(1_000_000_000u64));
             let acc = self.rewards.entry((d, v)).or_default();
             let up = s.mul(&rate);
             let low = Rat::int(s.floor_u128()).mul(&rate);
@@ -330,7 +334,7 @@ pub fn step(app: &mut SApp, nm: &Names, st: &SState, op: &SOp, cfg: &Cfg, ops_al
     let d_addr = |d: u8| Addr::unchecked(&nm.delegators[d as usize]);
     let denom_of = |x: u8| if x == 0 { DENOM } else { FOREIGN };
     // ---- run the operation
-    let is_block_op = matches!(op, SOp::Advance { .. } | SOp::SetBlock { .. });
+    let is_block_op = matches!(op, SOp::Advance { .. } | SOp::SetBlock { .. } | SOp::AdvanceNanos { .. });
     let res: Result<Result<(), String>, String> = catch(|| match op {
         SOp::Delegate { d, v, amt, denom } => app
             .execute(d_addr(*d), StakingMsg::Delegate { validator: nm.validators[*v as usize].clone(), amount: coin(*amt, denom_of(*denom)) }.into())
@@ -363,6 +367,14 @@ pub fn step(app: &mut SApp, nm: &Names, st: &SState, op: &SOp, cfg: &Cfg, ops_al
             let s = *secs;
             app.update_block(|b| {
                 b.time = b.time.plus_seconds(s);
+                b.height += 1;
+            });
+            Ok(())
+        }
+        SOp::AdvanceNanos { nanos } => {
+            let n = *nanos;
+            app.update_block(|b| {
+                b.time = b.time.plus_nanos(n);
                 b.height += 1;
             });
             Ok(())
@@ -491,7 +503,7 @@ pub fn step(app: &mut SApp, nm: &Names, st: &SState, op: &SOp, cfg: &Cfg, ops_al
                 } else {
                     h.shares.insert((*d, *v), s);
                 }
-                h.queue.push(QEntry { d: *d, v: *v, amount: Rat::int(*amt), payout_at: h.now + UNBONDING, slashes: 0 });
+                h.queue.push(QEntry { d: *d, v: *v, amount: Rat::int(*amt), payout_at: h.now + UNBONDING as u128 * 1_000_000_000, slashes: 0 });
                 if post.deleg[&(*d, *v)] == 0 {
                     h.rewards.remove(&(*d, *v));
                 }
@@ -641,8 +653,13 @@ pub fn step(app: &mut SApp, nm: &Names, st: &SState, op: &SOp, cfg: &Cfg, ops_al
                 *h.slashed_ever.entry(*v).or_default() += 1;
             }
         }
-        SOp::Advance { secs } | SOp::SetBlock { secs } => {
-            let new_now = h.now + secs;
+        SOp::Advance { .. } | SOp::SetBlock { .. } | SOp::AdvanceNanos { .. } => {
+            let dt_ns: u128 = match op {
+                SOp::Advance { secs } | SOp::SetBlock { secs } => *secs as u128 * 1_000_000_000,
+                SOp::AdvanceNanos { nanos } => *nanos as u128,
+                _ => 0,
+            };
+            let new_now = h.now + dt_ns;
             // matured entries are paid in full (minus at most one token per slash), others not at all
             let mut lo = vec![0u128; pre.bal.len()];
             let mut hi = vec![0u128; pre.bal.len()];
@@ -661,14 +678,14 @@ pub fn step(app: &mut SApp, nm: &Names, st: &SState, op: &SOp, cfg: &Cfg, ops_al
                 let got = post.bal[i].wrapping_sub(pre.bal[i]);
                 if post.bal[i] < pre.bal[i] || got < lo[i] || got > hi[i] {
                     let class = if hi[i] == 0 { "block-update-paid-without-matured-unbonding" } else if got < lo[i] { "matured-unbonding-underpaid" } else { "matured-unbonding-overpaid" };
-                    report(class, case("an undelegated amount is paid back in full (reduced only by slashes) by the first block update at or after the unbonding period, and not before", json!({"account_index": i, "paid": (post.bal[i] as i128 - pre.bal[i] as i128).to_string(), "allowed": format!("[{}, {}]", lo[i], hi[i]), "now_s": new_now})));
+                    report(class, case("an undelegated amount is paid back in full (reduced only by slashes) by the first block update at or after the unbonding period, and not before", json!({"account_index": i, "paid": (post.bal[i] as i128 - pre.bal[i] as i128).to_string(), "allowed": format!("[{}, {}]", lo[i], hi[i]), "now_ns": new_now.to_string()})));
                 }
             }
             if post.deleg != pre.deleg {
                 report("block-update-changed-delegations", case("a block update does not change delegations", json!({"before": format!("{:?}", pre.deleg), "after": format!("{:?}", post.deleg)})));
             }
             if cfg.check_rewards {
-                h.accrue(*secs, nm);
+                h.accrue(dt_ns, nm);
             }
             h.now = new_now;
         }
@@ -732,7 +749,7 @@ fn op_kind(o: &SOp) -> &'static str {
         SOp::Withdraw { .. } => "withdraw",
         SOp::SetWithdraw { .. } => "set-withdraw-address",
         SOp::Slash { .. } => "slash",
-        SOp::Advance { .. } => "update_block",
+        SOp::Advance { .. } | SOp::AdvanceNanos { .. } => "update_block",
         SOp::SetBlock { .. } => "set_block",
     }
 }
@@ -1197,14 +1214,29 @@ pub fn run_c15(ctx: &Ctx) -> i32 {
             n
         })
         .sum();
+    // sub-second block times with stakes large enough that one second of reward is worth
+    // thousands of tokens: linearity in elapsed time and independence of the block split
+    let big = 1_000_000_000_000u128;
+    let alpha2 = vec![
+        SOp::Delegate { d: 0, v: 0, amt: big, denom: 0 },
+        SOp::Delegate { d: 1, v: 0, amt: 3 * big, denom: 0 },
+        SOp::AdvanceNanos { nanos: 750_000_000 },
+        SOp::AdvanceNanos { nanos: 1_500_000_000 },
+        SOp::Advance { secs: 1 },
+        SOp::Withdraw { d: 0, v: 0 },
+        SOp::Withdraw { d: 1, v: 0 },
+        SOp::Undelegate { d: 1, v: 0, amt: big, denom: 0 },
+    ];
+    let cfg2 = Cfg { check_rewards: true, prop: "C15".into(), funds: 10 * big };
+    let out2 = explore(ctx, &nm, &alpha2, ctx.tier.pick(5, 6), &cfg2, false, 2_000_000);
     finish(
         ctx,
-        vec![("reward-histories", &out, alpha.iter().map(sop_label).collect::<Vec<_>>())],
+        vec![("reward-histories", &out, alpha.iter().map(sop_label).collect::<Vec<_>>()), ("sub-second-block-times-large-stakes", &out2, alpha2.iter().map(sop_label).collect::<Vec<_>>())],
         n,
         json!({"depth": depth, "stakes": [100, 333], "time_steps_s": [YEAR / 3, YEAR / 2, YEAR, 1], "split_variants": "every advance of {1/3 y, 1/2 y, 1 y, 7 s} from every explored state, unsplit vs split into 2 and 3 block updates"}),
         {
             let mut a = std_assumptions();
-            a.push("all block times are whole seconds".into());
+            a.push("main exploration: whole-second block times, stakes 100 / 333; second exploration: block steps of 0.75 s, 1.5 s and 1 s with stakes of 10^12 and 3*10^12 (one second of reward = thousands of tokens)".into());
             a.push("rewards not withdrawn before a delegation drops to zero are outside the statement (periods of positive delegation only)".into());
             a
         },
@@ -1225,9 +1257,11 @@ pub fn replay(ctx: &Ctx, case: &Value) {
             all.push(SOp::Slash { v, pct: p });
         }
     }
-    for s in [YEAR / 3, YEAR / 2, YEAR, 7, UNBONDING, YEAR / 6, YEAR / 9, YEAR / 4, 3, 2, 4] {
+    for s in [YEAR / 3, YEAR / 2, YEAR, 7, UNBONDING, YEAR / 6, YEAR / 9, YEAR / 4, 3, 2, 4, 1, 10 * YEAR] {
         all.push(SOp::Advance { secs: s });
     }
+    let big = 1_000_000_000_000u128;
+    all.extend([SOp::AdvanceNanos { nanos: 750_000_000 }, SOp::AdvanceNanos { nanos: 1_500_000_000 }, SOp::Delegate { d: 0, v: 0, amt: big, denom: 0 }, SOp::Delegate { d: 1, v: 0, amt: 3 * big, denom: 0 }, SOp::Undelegate { d: 1, v: 0, amt: big, denom: 0 }]);
     let mut app = build(&nm, cfg.funds);
     let b0 = app.block_info();
     app.set_block(b0);
